@@ -155,6 +155,11 @@ def main():
                 cross_config(ctx, configs)
         except FactsError as e:
             ctx.ob("anchor", "missing", False, str(e), kind="missing-anchor")
+        except Exception as e:   # a rule met a shape it has no case for: fail closed, but say so
+            import traceback
+            tb = traceback.format_exc().strip().splitlines()
+            ctx.ob("internal", "rule-crashed", False, "the rule implementation failed on this tree (%s: %s); nothing it would have "
+                   "reported is known" % (type(e).__name__, e), kind="cannot-decide", detail={"traceback": tb[-6:]})
 
     known = [k for k in load_known() if k["property"] == prop]
     known_keys = {k["key"]: k for k in known if k["status"] == "known"}
